@@ -273,6 +273,8 @@ type world struct {
 	hist          []opRec
 	xrRefs        [][]schema.GroupVersionKind
 	xrTerminating map[int]bool
+	removing      map[string]int   // controller name -> Stop/StopWatches/collector calls in progress
+	removedUntil  map[string]int64 // controller name -> tick at which the last of them returned
 	endCh         chan struct{}
 	wait          map[*simsync.RWMutex]int
 	names         map[*simsync.RWMutex]string
@@ -326,8 +328,15 @@ func (w *world) Acquire(m *simsync.RWMutex, write bool) {
 	m.Readers++
 }
 
-// Release implements simsync.Hooks.
-func (w *world) Release(*simsync.RWMutex, bool) {}
+// Release implements simsync.Hooks: right after an unlock is a place where the
+// goroutine may be preempted (what it read under the lock can be stale by the
+// time it acts on it).
+func (w *world) Release(m *simsync.RWMutex, _ bool) {
+	if w.quiet {
+		return
+	}
+	w.s.Yield(w.proc, "lock", "after unlock "+w.names[m], nil, nil)
+}
 
 // Point implements simsync.Hooks.
 func (w *world) Point(string) {}
@@ -363,7 +372,7 @@ func watchFor(gvk schema.GroupVersionKind, wt engine.WatchType) engine.Watch {
 }
 
 func (prop) Run(t *testing.T, s *sim.Sim, res *runner.Result) {
-	w := &world{s: s, proc: s.NewProc("core"), wait: map[*simsync.RWMutex]int{}, names: map[*simsync.RWMutex]string{}, removedAt: map[schema.GroupVersionKind]int64{}, xrTerminating: map[int]bool{}, endCh: make(chan struct{})}
+	w := &world{s: s, proc: s.NewProc("core"), wait: map[*simsync.RWMutex]int{}, names: map[*simsync.RWMutex]string{}, removedAt: map[schema.GroupVersionKind]int64{}, xrTerminating: map[int]bool{}, endCh: make(chan struct{}), removing: map[string]int{}, removedUntil: map[string]int64{}}
 	elected := make(chan struct{})
 	close(elected)
 	w.mgr = &fakeMgr{elected: elected, scheme: kit.Scheme()}
@@ -422,7 +431,10 @@ func (prop) Run(t *testing.T, s *sim.Sim, res *runner.Result) {
 				names = append(names, "Stop "+name)
 				ops = append(ops, func() {
 					call := w.tick()
+					w.removing[name]++
 					err := w.eng.Stop(context.Background(), name)
+					w.removing[name]--
+					w.removedUntil[name] = w.tick()
 					w.record(c, opIn{"stop", name}, opOut{Err: err != nil}, call)
 				})
 			case 3:
@@ -442,13 +454,21 @@ func (prop) Run(t *testing.T, s *sim.Sim, res *runner.Result) {
 				})
 			case 7:
 				names = append(names, fmt.Sprintf("StopWatches %s %s", name, k.Kind))
-				ops = append(ops, func() { _, _ = w.eng.StopWatches(context.Background(), name, engine.WatchID{Type: wt, GVK: k}) })
+				ops = append(ops, func() {
+					w.removing[name]++
+					_, _ = w.eng.StopWatches(context.Background(), name, engine.WatchID{Type: wt, GVK: k})
+					w.removing[name]--
+					w.removedUntil[name] = w.tick()
+				})
 			case 8:
 				names = append(names, "GetWatches/GC "+name)
 				ops = append(ops, func() {
 					_, _ = w.eng.GetWatches(name)
 					gc := watch.NewGarbageCollector(name, resource.CompositeKind(kinds[0]), gcEngine{w.eng, lister})
+					w.removing[name]++
 					_ = gc.GarbageCollectWatchesNow(context.Background())
+					w.removing[name]--
+					w.removedUntil[name] = w.tick()
 				})
 			case 9:
 				names = append(names, "RemoveInformer "+k.Kind)
@@ -538,13 +558,23 @@ func (w *world) afterStartWatches(name string, began int64, ks ...schema.GroupVe
 	if cur == nil {
 		return
 	}
+	// a Stop, StopWatches or collector run on this controller that overlapped
+	// this request (or ran between its critical section and its return) may
+	// have taken the watch away again, legitimately
+	if w.removing[name] > 0 || w.removedUntil[name] >= began {
+		w.s.Probe("start-watches-overlapped-a-remover")
+		return
+	}
 	regs := w.regsOf()
 	for _, k := range ks {
 		inf := w.cache.infs[k]
+		if w.removedAt[k] >= began {
+			// the informer was removed (again) while this request ran: whatever
+			// the request had set up on it went with it
+			w.s.Probe("informer-removed-while-start-watches-ran")
+			continue
+		}
 		if inf == nil {
-			if w.removedAt[k] >= began {
-				continue // removed again while this request ran
-			}
 			// the informer was removed before this request began and the request
 			// did not bring it back
 			w.s.Violate("C13/start-did-not-establish-watch/informer-still-gone", fmt.Sprintf("StartWatches(%s, %s) succeeded but the informer for %s, removed earlier, was not restarted", name, k.Kind, k.Kind))
